@@ -220,12 +220,61 @@ def run(ctx):
                 r2.ok("append", "not moveable: exactly push(র) push(্)")
             else:
                 r2.violation("append", "the not-moveable branch performs %s instead of appending র্" % [w[0] for w in ws], site_of(rb, nm))
+        # frame: nothing else touches the text — apart from a character taken off and put back under the same condition on every path
+        allowed_bbs = {bbb}
+        x = rb.blocks[bbb]["term"].get("target")
+        seen2 = set()
+        n_after = 0
+        while x is not None and x not in seen2 and n_after < 3:
+            seen2.add(x)
+            t = rb.blocks[x]["term"]
+            if t["k"] == "call" and t["args"] and t["args"][0]["k"] != "const" and self_path(rb.expr_operand(t["args"][0])) == (buf,) \
+                    and t["args"][0]["place"]["ty"].startswith("&mut"):
+                allowed_bbs.add(x)
+                n_after += 1
+            x = t["target"] if t["k"] in ("goto", "call", "drop") and t.get("target") is not None else None
+        if nm is not None:
+            allowed_bbs |= {bb2 for (f, op, bb2, w) in phonetic.field_writes(prog, reph_fn, mods, body=rb) if bb2 in rb.reachable_from(nm) and f[:1] == (buf,)}
+        extra = [w for w in writes if w[2] not in allowed_bbs]
+        pops = [w for w in extra if w[1].endswith("pop")]
+        pushes = [w for w in extra if w[1].endswith("::push") or w[1] == "push"]
+        other = [w for w in extra if w not in pops and w not in pushes]
+        bad_frame = None
+        if other:
+            bad_frame = ("the routine also performs %s on the text" % other[0][1].split("::")[-1], other[0][2])
+        else:
+            used = set()
+            for pw in pops:
+                gp = {(repr(d), pol) for (d, pol, s_) in guards_of(rb, pw[2])}
+                mate = None
+                for qw in pushes:
+                    if qw[2] in used or pw[2] not in [pw[2]] or qw[2] not in rb.reachable_from(pw[2]):
+                        continue
+                    gq_full = guards_of(rb, qw[2])
+                    gq = {(repr(d), pol) for (d, pol, s_) in gq_full}
+                    if gp != gq:
+                        continue
+                    anchor = max((s_ for (d, pol, s_) in gq_full), default=None, key=lambda s_: sum(1 for y in rb.rblocks if rb.dominates(y, s_))) if gq_full else qw[2]
+                    if anchor is not None and rb.postdominates(anchor, pw[2]):
+                        mate = qw
+                        break
+                if mate is None:
+                    bad_frame = ("a character is popped off the text and not put back under the same condition on every path to the return (some path loses it)", pw[2])
+                    break
+                used.add(mate[2])
+            if bad_frame is None and len(used) != len(pushes):
+                qw = [q for q in pushes if q[2] not in used][0]
+                bad_frame = ("the routine pushes an additional character onto the text", qw[2])
+        if bad_frame is not None:
+            r2.violation("frame", bad_frame[0], site_of(rb, bad_frame[1]))
+        else:
+            r2.ok("frame", "no other write to the text (%d paired pop/push)" % len(pops))
         # the internal back-space is the suffix-bytes idiom
         if ok_idiom:
             r2.ok("backspace-n", "removes exactly the last n code points: truncate(len() − Σ len_utf8 over chars().rev().take(n))")
         else:
             r2.violation("backspace-n", "the internal back-space does not remove exactly n code points: %s" % why, site_of(rb, bbb))
-    r2.floor(4, "tail, reinsert, append, backspace-n")
+    r2.floor(5, "tail, reinsert, append, backspace-n, frame")
 
     # ---------------- R1 no panic on any text
     r1 = chk.rule("C13.R1", "no undischarged panic site in the reph functions (any text, including empty)",
